@@ -550,6 +550,28 @@ def run(ck):
         for (m, log) in ck.leanchecker(PROPS):
             ck.violation("leanchecker:" + m, "leanchecker rejects %s" % m, {"log": log}, False)
 
+    # default third argument of tokenize(string_view,char,bool): `= false` in StringAlgorithms.hxx, i.e. empty
+    # fields are kept only when asked.  Implementation only (the two-argument call), judged by the property's own
+    # predicate; the three-argument form was compared with the model on the same strings above.
+    dreqs = [("tokc", s, c, False) for s in words(ALPHA, 5) for c in ALPHA]
+    dfile = ck.write("requests_default.txt", "".join("tokcd %s %s\n" % (hx(r[1]), hx(r[2])) for r in dreqs))
+    dimpl, dinc = run_impl(ck, harness, dfile, len(dreqs), jobs=1)
+    n_default_bad = 0
+    for r, a in zip(dreqs, dimpl):
+        want = spec(r)
+        if a == want:
+            continue
+        n_default_bad += 1
+        disagreements += 1
+        if n_default_bad > 1:
+            continue
+        ck.violation("tokenize(string_view,char):default-third-argument",
+                     "tokenize(%s, %s) (two arguments: empty fields not asked for) answers '%s'; the property demands '%s'" % (
+                         show(r[1]), show(r[2]), a, want),
+                     {"function": "tokenize(string_view,char,bool = false)", "site": "include/TFEL/Utilities/StringAlgorithms.hxx",
+                      "request": "tokcd %s %s" % (hx(r[1]), hx(r[2])), "arguments": [show(r[1]), show(r[2])],
+                      "implementation": a, "property_demands": want, "property_holds_on_implementation_answer": False}, True)
+
     # observations outside the stated quantifier (evidence only)
     obs_reqs = ["repps 666f6f626172 6f 30 3", "repps 616263 62 58 1", "toks 612c 2c", "toks 2c 2c", "toks - 2c",
                 "conv 20312e35", "conv 30783130", "conv 696e66", "conv 6e616e283129", "convl 312e35", "convl 3165343030"]
@@ -583,7 +605,8 @@ def run(ck):
             "one pattern per renaming class (8) up to length 3" if ck.quick else "all 39 patterns up to length 3", 5 if ck.quick else 6),
         "requests_by_function": hist, "requests_by_input_class": classes,
         "corpus": n_corpus, "exhaustive_requests": n_exh, "random_requests": n_rand,
-        "disagreements": disagreements, "watchdog_or_crash_incidents": len(incidents),
+        "default_argument_requests": len(dreqs),
+        "disagreements": disagreements, "watchdog_or_crash_incidents": len(incidents) + len([e for e in dinc if e[1] != "spurious-timeout-recovered"]),
         "requests_not_run_after_repeated_hangs": not_run, "watchdog_hits_not_confirmed_with_larger_budget": len(recovered),
         "traces_validated_against_impl": len(reqs) - not_run,
         "observations": observations,
